@@ -1,6 +1,7 @@
 import EpdVerif.Props.C07Clear
 import EpdVerif.Drivers.Epd2in7b
 import EpdVerif.Drivers.Epd1in54b
+import EpdVerif.Drivers.Epd7in5
 /-!
 # C01 for a driver that sends the frame ONE BYTE PER TRANSFER through a re-encoding (session 4)
 
@@ -14,7 +15,9 @@ frame's size and every awake epd2in7b-kind controller outside partial mode, afte
 B/W plane holds the bit-inverted buffer (the panel's documented encoding) and the other plane the
 uniform inverted background.  `blocksOf_cmd_chunks` is the same for ANY sequence of transfers (one chunk each);
 with it **`epd1in54b_update_frame_delivers`**: the 2-bpp plane receives the driver's two-byte expansion of
-every buffer byte, in order.  (7in5 closes its data by the end of the call, not by a command: not done.)
+every buffer byte, in order.  `blocksOf_cmd_dataEach_end` covers data closed by the END of the call: **`epd7in5_update_frame_delivers`**
+(4-bpp plane = the four-byte expansion of every buffer byte).  All three drivers of `E2E/DROPPED.txt`'s
+"spine" class now have their `update_frame` theorem.
 -/
 namespace EpdVerif
 
@@ -121,6 +124,32 @@ theorem blocksOf_cmd_chunks (pre : List Act) (c : UInt8) (chunks : List (List UI
   have hcur : (GState.step (List.foldl GState.step {} (actsToEvs pre)) (Ev.w false 1 [c])).cur = some c := by
     simp only [GState.step, GState.cmds]
   rw [step_chunks_then_cmd _ c hcur chunks c2]
+theorem close_dataEach (g : GState) (c : UInt8) (hc : g.cur = some c) (bs : List UInt8) :
+    ((bs.map (fun x => Ev.w true 1 [x])).foldl GState.step g).close = (GState.step g (Ev.w true 1 bs)).close := by
+  rw [fold_dataEach]
+  simp only [GState.step, GState.close, hc]
+  have e : ((List.map (fun x => [x]) bs.reverse ++ g.pieces).reverse).flatten = ((bs :: g.pieces).reverse).flatten := by
+    simp only [List.reverse_append, List.reverse_cons, List.flatten_append, ← List.map_reverse, List.reverse_reverse,
+      flatten_singletons, List.flatten_cons, List.flatten_nil, List.append_nil]
+  rw [e]
+
+/-- … and when the byte-by-byte data is closed by the END of the call instead of a command -/
+theorem blocksOf_cmd_dataEach_end (pre : List Act) (c : UInt8) (bs : List UInt8) :
+    blocksOf (pre ++ Act.cmd c :: dataEach bs) = blocksOf (pre ++ [Act.cmd c, Act.data bs]) := by
+  unfold blocksOf blocksOfEvs
+  have h1 : actsToEvs (pre ++ Act.cmd c :: dataEach bs)
+      = actsToEvs pre ++ (Ev.w false 1 [c] :: (bs.map fun x => Ev.w true 1 [x])) := by
+    rw [actsToEvs_append]
+    have := actsToEvs_dataEach bs []
+    rw [List.append_nil] at this
+    simp only [actsToEvs, this, List.append_nil]
+  have h2 : actsToEvs (pre ++ [Act.cmd c, Act.data bs]) = actsToEvs pre ++ [Ev.w false 1 [c], Ev.w true 1 bs] := by
+    rw [actsToEvs_append]; simp only [actsToEvs]
+  rw [h1, h2]
+  simp only [List.foldl_append, List.foldl_cons, List.foldl_nil]
+  have hcur : (GState.step (List.foldl GState.step {} (actsToEvs pre)) (Ev.w false 1 [c])).cur = some c := by
+    simp only [GState.step, GState.cmds]
+  rw [close_dataEach _ c hcur bs]
 end EpdVerif
 
 namespace EpdVerif.Props.C01
@@ -230,5 +259,56 @@ theorem epd1in54b_update_frame_delivers (f : Feat) (d : DState) (b : Bytes) (u :
   simp only [List.append_nil]
   exact uc_res_two_blocks u _ _ _ hu hp (by rw [flatten_expand_length]; exact hl) (by rw [List.length_replicate]; exact h2.symm)
 
+
+/-- the four wire bytes the driver sends for one buffer byte (1 bpp → 4 bpp, two pixels per byte) -/
+def expand4 (b : UInt8) : List UInt8 :=
+  let s0 := Drivers.Epd7in5.expandStep b
+  let s1 := Drivers.Epd7in5.expandStep s0.2
+  let s2 := Drivers.Epd7in5.expandStep s1.2
+  let s3 := Drivers.Epd7in5.expandStep s2.2
+  [s0.1, s1.1, s2.1, s3.1]
+
+theorem flatMap_expandByte (b : Bytes) : b.flatMap Drivers.Epd7in5.expandByte = dataEach (b.flatMap expand4) := by
+  induction b with
+  | nil => rfl
+  | cons x xs ih =>
+    simp only [List.flatMap_cons, ih]
+    show _ = List.map _ (expand4 x ++ List.flatMap expand4 xs)
+    rw [List.map_append]
+    rfl
+
+theorem flatMap_expand4_length (b : Bytes) : (b.flatMap expand4).length = 4 * b.length := by
+  induction b with
+  | nil => rfl
+  | cons x xs ih =>
+    simp only [List.flatMap_cons, List.length_append, ih, List.length_cons]
+    show 4 + 4 * xs.length = _
+    omega
+
+open Drivers.Epd7in5 in
+theorem epd7in5_upd_blocks (f : Feat) (d : DState) (b : Bytes) :
+    blocksOf ((prog f d (.upd b)).getD []) = [.c 0x10 (b.flatMap expand4 ++ [])] := by
+  have e : (prog f d (.upd b)).getD [] = [W] ++ Act.cmd 0x10 :: dataEach (b.flatMap expand4) := by
+    show updateFrame b = _
+    unfold updateFrame
+    rw [flatMap_expandByte]
+    rfl
+  rw [e, blocksOf_cmd_dataEach_end]
+  rfl
+
+open Drivers.Epd7in5 in
+/-- **epd7in5 `update_frame`, EVERY buffer**: the 4-bpp plane receives the driver's four-byte expansion of
+    every buffer byte, in order -/
+theorem epd7in5_update_frame_delivers (f : Feat) (d : DState) (b : Bytes) (u : Uc)
+    (hu : u.asleep = false) (hp : u.partialOn = false) (hl : 4 * b.length = u.p1.size) :
+    (u.run (blocksOf ((prog f d (.upd b)).getD []))).p1.toList = b.flatMap expand4 := by
+  rw [epd7in5_upd_blocks]
+  simp only [List.append_nil]
+  have d1 := dtm_full u 0 (b.flatMap expand4) hp (by simp only [↓reduceIte]; rw [flatMap_expand4_length]; exact hl)
+  simp only [↓reduceIte] at d1
+  have e : u.run [Blk.c 0x10 (b.flatMap expand4)] = u.dtm 0 (b.flatMap expand4) := by
+    simp (config := {decide := true}) only [Uc.run, List.foldl, Uc.feed, hu, ↓reduceIte, Bool.false_eq_true]
+  rw [e]
+  exact d1.1
 
 end EpdVerif.Props.C01
